@@ -174,6 +174,10 @@ type AnalyzedFnParam struct {
 }
 
 func (self AnalyzedFnParam) String() string {
+	// a singleton is extracted by naming it, not by the type it stands for
+	if self.IsSingletonExtractor {
+		return fmt.Sprintf("%s: %s", self.Ident, self.SingletonIdent)
+	}
 	return fmt.Sprintf("%s: %s", self.Ident, self.Type)
 }
 
